@@ -11,7 +11,7 @@ import (
 func init() {
 	register(&Property{
 		ID:          "C16",
-		Explanation: "Decides structural clauses of snapshot-directory crash atomicity: the publish order of snapshotter.Commit (metadata file -> flag file -> existence check -> rename to the final directory -> parent-directory sync -> log-store record unless exported -> flag removal) holds on every path, each step only after the previous one succeeded; every rename / remove-all / mkdir in the snapshot environment, file utilities, shrink/replace and import code is followed by a directory sync before a success return, and the directory synced is the parent (root) directory, never the renamed/removed path itself; a received snapshot's flag file is removed only after SaveRaftState; the shrunk file is written and closed before it replaces the original; start-up cleanup (processOrphans) precedes node creation and removes a final directory only when it is not the recorded snapshot and a flag only when it is; storage errors in these paths propagate. Does not decide which layouts a crash can produce.",
+		Explanation: "Decides structural clauses of snapshot-directory crash atomicity: the publish order of snapshotter.Commit (metadata file -> flag file -> existence check -> rename to the final directory -> parent-directory sync -> log-store record unless exported -> flag removal) holds on every path, each step only after the previous one succeeded; every rename / remove-all / mkdir in the snapshot environment, file utilities, shrink/replace and import code is followed by a directory sync before a success return, and the directory synced is the parent (root) directory, never the renamed/removed path itself; a received snapshot's flag file is removed only after SaveRaftState; the shrunk file is written and closed before it replaces the original; start-up cleanup (processOrphans) precedes node creation and removes a final directory only when it is not the recorded snapshot and a flag only when it is; storage errors in these paths propagate. Does not decide which layouts a crash can produce. A refused publish / record is never success (no sentinel excuse); the import tool publishes before it records; start-up cleanup keeps a flagged directory only when its index equals the recorded one.",
 		NotCovered:  "enumeration of crash layouts; what the file system guarantees for rename/fsync (vfs and the kernel are trusted)",
 		Run:         runC16,
 	})
